@@ -70,11 +70,11 @@ theorem natOfDigits_natDigs : ∀ n, natOfDigits (natDigs n) = n := by
 theorem decDigits_eq : ∀ n, decDigits n = digitsText (natDigs n) := by
   intro n
   induction n using natDigs.induct with
-  | case1 n h => rw [natDigs_lt n h, decDigits]; simp [h, digitsText]
+  | case1 n h => rw [natDigs_lt n h, decDigits]; simp [h, digitsText, digitByte]
   | case2 n h ih =>
     rw [natDigs_ge n h, decDigits]
     simp only [h, dite_false]
-    rw [ih]; simp [digitsText]
+    rw [ih]; simp [digitsText, digitByte]
 
 theorem natDigs_length : ∀ (k n : Nat), n < 10 ^ (k + 1) → (natDigs n).length ≤ k + 1 := by
   intro k
@@ -96,6 +96,7 @@ theorem digitsText_mem {ds : List Nat} (h : ∀ d ∈ ds, d < 10) : ∀ b ∈ di
   intro b hb
   simp only [digitsText, List.mem_map] at hb
   obtain ⟨d, hd, rfl⟩ := hb
+  unfold digitByte
   have := h d hd
   constructor
   · rw [UInt8.le_iff_toNat_le]; simp; omega
